@@ -235,6 +235,11 @@ def gen_dataset(rng, present=None, size=None):
         return rng.randint(0, size) if size else 0
     d = {p: None for p in ALL_PARTS}
     used_ids = set()
+    # as in real captures, several devices usually share the same few timestamps
+    ts_pool = [gen_timestamp(rng) for _ in range(rng.randint(1, 5))]
+
+    def pick_ts():
+        return rng.choice(ts_pool) if rng.random() < 0.7 else gen_timestamp(rng)
 
     def fresh_id():
         for _ in range(100):
@@ -289,7 +294,7 @@ def gen_dataset(rng, present=None, size=None):
         rows, seen = [], set()
         if devices:
             for _ in range(n_rows()):
-                k = (gen_timestamp(rng), rng.choice(devices))
+                k = (pick_ts(), rng.choice(devices))
                 if k in seen:
                     continue
                 seen.add(k)
@@ -303,7 +308,7 @@ def gen_dataset(rng, present=None, size=None):
         keys, seen = [], set()
         if ids:
             for _ in range(n_rows()):
-                k = (gen_timestamp(rng), rng.choice(ids))
+                k = (pick_ts(), rng.choice(ids))
                 if k not in seen:
                     seen.add(k)
                     keys.append(k)
